@@ -26,6 +26,9 @@ type envEv struct {
 	Dec2       bool    `json:"dec2"`   // Evidence.UnmarshalCOSE succeeded
 	Claims     bool    `json:"claims"` // claims attached after success
 	Pan        bool    `json:"panicked"`
+	// after the call: the canonical envelope still decodes and one whose payload holds CBOR null is still refused
+	// (what is evidence does not depend on what was presented before)
+	ProbeOK bool `json:"probeOK"`
 }
 
 // element kinds for the grid
@@ -85,6 +88,18 @@ func encElem(e *cborx.Enc, kind string, w *evWorld, cc Conc) {
 		e.Bstr([]byte{0xa0})
 	case "payload-two-maps":
 		e.Bstr(append(append([]byte{}, w.enc["cA"]...), w.enc["cA"]...))
+	case "payload-p2-boolkey": // a map naming a registered profile under key 265, with a key that is neither integer nor text
+		in := &cborx.Enc{}
+		in.Map(2).Int(265).Tstr(psatoken.Profile2Name).Bool(true).Uint(0)
+		e.Bstr(in.Bytes())
+	case "payload-p2-bstrkey":
+		in := &cborx.Enc{}
+		in.Map(2).Bstr([]byte{1}).Uint(0).Int(265).Tstr(psatoken.Profile2Name)
+		e.Bstr(in.Bytes())
+	case "payload-unknown-profile":
+		in := &cborx.Enc{}
+		in.Map(1).Int(265).Tstr("http://unknown.example/profile")
+		e.Bstr(in.Bytes())
 	case "payload-null": // a byte string whose content is the single item null
 		e.Bstr([]byte{0xf6})
 	case "payload-undef":
@@ -121,7 +136,8 @@ func encElem(e *cborx.Enc, kind string, w *evWorld, cc Conc) {
 var elemKinds = []string{"bstr-prot", "bstr-empty", "bstr-payload", "bstr-sig", "bstr-junk", "map-empty", "map-one", "null", "undef", "uint", "nint",
 	"tstr", "arr-empty", "arr-one", "bool", "float", "tagged-bstr", "wrapped", "wrapped2", "payload-array", "payload-int", "payload-emptymap",
 	"payload-two-maps", "indef-bstr", "payload-null", "payload-undef", "payload-false", "payload-tstr", "payload-bstr", "payload-map-junk",
-	"payload-map-null", "payload-map-break", "payload-map-trunc", "payload-null-map", "payload-tagged-map", "payload-tagged-null", "payload-truncated"}
+	"payload-map-null", "payload-map-break", "payload-map-trunc", "payload-null-map", "payload-tagged-map", "payload-tagged-null", "payload-truncated",
+	"payload-p2-boolkey", "payload-p2-bstrkey", "payload-unknown-profile"}
 
 func init() {
 	drivers["ev-envelope"] = func(a *Args) {
@@ -130,6 +146,7 @@ func init() {
 		w := newEvWorld([]string{"ES256"}, cc, d)
 		t := NewTracer(a.Out)
 		b := 0
+		var probeGood, probeNull []byte
 		present := func(kind string, tok []byte) {
 			ev := envEv{B: b, Op: "Envelope", Kind: kind, TI: w.absToken(tok), MinimalTag: true}
 			if n, _, err := cborx.ParseFirst(tok); err == nil && n.Major == 6 {
@@ -152,6 +169,14 @@ func init() {
 				ev.Dec2 = e2.UnmarshalCOSE(append([]byte{}, tok...)) == nil
 				ev.Claims = ev.Dec1 && e1.Claims != nil
 			})
+			ev.ProbeOK = true
+			if probeGood != nil {
+				safely(func() {
+					_, e2 := psatoken.DecodeEvidenceFromCOSE(append([]byte{}, probeNull...)) // first: a successful decode may reset what a failed one left
+					_, e1 := psatoken.DecodeEvidenceFromCOSE(append([]byte{}, probeGood...))
+					ev.ProbeOK = e1 == nil && e2 != nil
+				})
+			}
 			t.Emit(ev, true, true)
 			b++
 		}
@@ -172,6 +197,8 @@ func init() {
 			e.Raw(trailing)
 			return e.Bytes()
 		}
+		probeGood = build(18, -1, std, nil)
+		probeNull = build(18, -1, []string{"bstr-prot", "map-empty", "payload-null", "bstr-sig"}, nil)
 		present("canonical", build(18, -1, std, nil))
 		// every tag 0..30 and none, also in non-minimal encodings
 		for tag := -1; tag <= 30; tag++ {
